@@ -155,6 +155,20 @@ def main(argv=None):
     os.makedirs(REPLAYS, exist_ok=True)
     nproc = int(os.environ.get("VERIF_JOBS", "16"))
     results = []
+    # oracle self-check: the recurrences the oracles transcribe against the optimum over ALL
+    # executable streams found by exhaustive search on tiny problems (vcheck/brute.py)
+    selfchecks = {}
+    if spec.get("selfcheck") and not only:
+        from . import brute, oracles
+        oracles.selfcheck()
+        for w in spec["selfcheck"]:
+            ts = time.time()
+            try:
+                selfchecks[w] = dict(brute.selfcheck(w, nmax=5 if tier == "quick" else 7),
+                                     wall_s=round(time.time() - ts, 1), nmax=5 if tier == "quick" else 7)
+            except AssertionError as e:
+                print("HARNESS-ERROR oracle self-check failed (%s): %r" % (w, e.args))
+                return 2
     # vacuity guard: the reachability twin of the first job must produce a
     # violation that replays concretely
     from .vacuity import reachability_witness
@@ -234,7 +248,7 @@ def main(argv=None):
         status = "inconclusive"
     if confirmed:
         status = "violation"
-    write_evidence(prop, tier, seed, spec, results, wall, status, confirmed, known, vac, xcheck)
+    write_evidence(prop, tier, seed, spec, results, wall, status, confirmed, known, vac, xcheck, selfchecks)
     shown = set()
     for f, rec in known:
         if f["id"] not in shown:
